@@ -587,9 +587,11 @@ class RTCRtpReceiver:
 
         except asyncio.CancelledError:
             pass
-
-        self.__log_debug("- RTCP finished")
-        self.__rtcp_exited.set()
+        finally:
+            # we *need* to set __rtcp_exited, otherwise RTCRtpReceiver.stop()
+            # will hang, even if we hit an unexpected exception
+            self.__log_debug("- RTCP finished")
+            self.__rtcp_exited.set()
 
     async def _send_rtcp(self, packet: AnyRtcpPacket) -> None:
         self.__log_debug("> %s", packet)
